@@ -173,7 +173,8 @@ PROPS["C16"] = {
             "then streamReader.Receive; plus a complete enumeration of single-message envelopes over boundary indices; plus (thorough) native fuzzing of the byte string "
             "given to Envelope.UnmarshalVT.  Receive must return without panicking; deliveries must be an ordered subsequence of the messages whose type and target index "
             "are in range, whose type is registered and whose payload decodes, each at that target with that type, payload and sender; every envelope before the first one "
-            "holding an invalid message must be delivered completely.  Non-trivial = the stream holds >=1 invalid message (index out of range, unknown type, undecodable payload).",
+            "holding an invalid message must be delivered completely.  Non-trivial = the stream holds >=1 invalid message (index out of range, unknown type, undecodable payload).  "
+            "Internal-target leg: the receiving node has a registered stream writer (stream/<address>, running inbox, never dials) and the envelope addresses well-formed messages to that id as well as to ordinary actors: the writer must not panic (its Invoke runs under a recover in the harness because on a real node it is the inbox goroutine), ordinary targets get their messages; a genuine delivery request queued behind them is the barrier.",
     "technique": "property-based testing (rapid) + complete boundary enumeration + native fuzzing of the decoder input, validity-predicate oracle over recorded deliveries",
     "level_text": "Generated-input search over hostile envelopes with a validity predicate; boundary space enumerated completely; bytes fuzzed coverage-guided in the thorough tier.",
     "level_note": "trusts the protobuf library to decide 'registered' and 'decodes'; the panic is observed on the caller's goroutine (in production it would be a drpc server goroutine without recover)",
@@ -181,6 +182,7 @@ PROPS["C16"] = {
     "legs": [rapid("gen", "wire", "TestHostileEnvelope", 20000, 300000, shards=(2, 12)),
              plain("enum", "wire", "TestHostileEnum"),
              rapid("bytes", "wire", "TestWireBytes", 20000, 300000, shards=(2, 12)),
+             rapid("internal", "wire", "TestInternalTargets", 400, 4000, shards=(1, 4)),
              fuzz("fuzz", "wire", "FuzzEnvelopeBytes", 90)],
 }
 
